@@ -215,14 +215,24 @@ class Check:
         return True
 
     # ---------------------------------------------------------------- (K)
-    def cc(self, name, sources, flags=(), cxx=False, san=True, compiler=None, libs=()):
+    def cc(self, name, sources, flags=(), cxx=False, san=True, compiler=None, libs=(), objs=()):
+        """objs: [(source, [extra flags])] compiled separately (C) and linked in."""
         exe = os.path.join(self.work, name)
         comp = compiler or ("g++" if cxx else "gcc")
+        extra_objs = []
+        for i, (src, oflags) in enumerate(objs):
+            o = os.path.join(self.work, "%s_obj%d.o" % (name, i))
+            r = sh(["gcc", "-std=gnu11"] + (SAN if san else ["-O1", "-g"]) + ["-I", os.path.join(REPO, "include"), "-I", os.path.join(REPO, "src"),
+                    "-I", os.path.join(VERIF, "harness")] + FEATURES + [GUARD] + list(oflags) + ["-c", src, "-o", o])
+            if r.returncode != 0:
+                self.machinery_error("object %s for harness %s does not compile:\n%s" % (src, name, (r.stderr or r.stdout)[-3000:]))
+                return None
+            extra_objs.append(o)
         cmd = [comp] + (["-std=gnu++17"] if cxx else ["-std=gnu11"]) + (SAN if san else ["-O1", "-g"]) + \
               ["-I", os.path.join(REPO, "include"), "-I", os.path.join(REPO, "src"),
                "-I", os.path.join(VERIF, "harness")] + FEATURES + [GUARD] + list(flags) + \
               [s if (os.path.isabs(s) or not os.path.exists(os.path.join(VERIF, "harness", s))) else os.path.join(VERIF, "harness", s) for s in sources] + \
-              ["-o", exe] + list(libs)
+              extra_objs + ["-o", exe] + list(libs)
         r = sh(cmd)
         if r.returncode != 0:
             # /repo no longer compiles with the harness: not a verdict about the property
